@@ -103,3 +103,14 @@ def replay(obligation, witness):
         ok = after == before + [(entry.message, entry.created_time, entry.severity, 1)]
     return {"confirmed": not ok, "before": before, "entry": [entry.message, entry.created_time, entry.severity],
             "after": after, "oracle": "statement of C35 applied to one aggregation step"}
+
+
+def _nat():
+    import contracts.c35_native as n
+    r = n.check()
+    return {"ok": not r["violated"], "observation": r}
+
+
+NATIVE = [("native:batches-against-the-statement-fold", _nat)]
+BOUNDED = ["native differential oracle: every sequence of up to 2 batches of up to 3 entries over 3 message/severity kinds and 3 times "
+           "(non-decreasing per batch), real aggregate_with against a fold written from the statement (bounded, not counted as proved)"]
